@@ -457,6 +457,88 @@ def render_real(case):
     return rec, lay, params, text, ofwd, oback
 
 
+_COORD = re.compile(r"\((-?[0-9][0-9.e+-]*),(-?[0-9][0-9.e+-]*)\)")
+
+
+def _by_value(tok):
+    try:
+        return repr(float(tok) + 0.0)
+    except ValueError:
+        return tok
+
+
+def canon_layers(text):
+    """What a rendered text says once the things TikZ does not care about are removed: the ORDER of the statements
+    inside a layer (statements of one layer never overlap in this drawing: C14), the NUMBERING of the interned
+    colours (each name is replaced by the HTML value it is defined as) and the spelling of a coordinate.
+    Returns (definitions, sorted colour values defined, {layer comment: sorted statements}) or None."""
+    if text.count("\\begin{tikzpicture}") != 1 or text.count("\\end{tikzpicture}") != 1:
+        return None
+    head, body = text.split("\\begin{tikzpicture}")
+    body, tail = body.split("\\end{tikzpicture}")
+    prefix = re.escape(templates()["color_prefix"])
+    dre = re.compile(r"\\definecolor\{(" + prefix + r"[0-9]+)\}\{HTML\}\{([0-9A-Za-z]*)\}")
+    table, defs = {}, []
+    for line in head.split("\n"):
+        m = dre.fullmatch(line)
+        if m:
+            if m.group(1) in table:
+                return None
+            table[m.group(1)] = m.group(2)
+        else:
+            defs.append(line)
+
+    def canon(st):
+        st = re.sub(prefix + r"[0-9]+", lambda m: "<#" + table.get(m.group(0), "?" + m.group(0)) + ">", st)
+        return _COORD.sub(lambda m: f"({_by_value(m.group(1))},{_by_value(m.group(2))})", st)
+
+    layers, name, chunk = {}, None, []
+
+    def close():
+        if name is None:
+            return not "".join(chunk).strip()
+        pieces, left = cut_statements("\n".join(chunk))
+        if left.strip() or name in layers:
+            return False
+        layers[name] = sorted(canon(x) for x in pieces)
+        return True
+
+    for line in body.split("\n")[1:]:
+        if line.startswith("% "):
+            if not close():
+                return None
+            name, chunk = line, []
+        else:
+            chunk.append(line)
+    if chunk and chunk[-1] == "":
+        chunk.pop()
+    if not close():
+        return None
+    return "\n".join(defs), sorted(table.values()), layers, tail
+
+
+def cut_statements(src):
+    """The exact texts of the `;`-terminated statements of a layer (joined by single newlines in the rendered text),
+    and what is left after the last `;`.  A backslash takes the next character with it; braces are counted."""
+    out, cur, d, i = [], "", 0, 0
+    while i < len(src):
+        c = src[i]
+        if c == "\\":
+            cur += src[i:i + 2]
+            i += 2
+            continue
+        d += c == "{"
+        d -= c == "}"
+        cur += c
+        i += 1
+        if c == ";" and d == 0:
+            out.append(cur)
+            cur = ""
+            if i < len(src) and src[i] == "\n":
+                i += 1
+    return out, cur
+
+
 def parse_text(text, params):
     """Cut a rendered text along the generated templates.
     Returns (structure dict, None) or (None, reason)."""
@@ -487,16 +569,22 @@ def parse_text(text, params):
             return None, f"layer comment `% {name}` missing"
         i += 1
         layers[name] = []
+        chunk = []
         while i < len(rest) and not rest[i].startswith("% ") and rest[i] != "\\end{tikzpicture}":
-            line = rest[i]
+            chunk.append(rest[i])
+            i += 1
+        # statements, not lines: a statement ends at a `;` at brace depth 0 and may be written over several lines
+        pieces, left = cut_statements("\n".join(chunk))
+        if left:
+            return None, f"unterminated text in layer {name}: {left[:120]}"
+        for line in pieces:
             for k, (t, rx) in enumerate(zip(stmts, regs)):
                 m = rx.fullmatch(line) if t["layer"] == name else None
                 if m:
                     layers[name].append((k, list(m.groups()), line))
                     break
             else:
-                return None, f"line matches no generated template of layer {name}: {line[:120]}"
-            i += 1
+                return None, f"statement matches no generated template of layer {name}: {line[:120]}"
     if rest[i:] != ["\\end{tikzpicture}", ""]:
         return None, "text does not end with \\end{tikzpicture} and a newline"
     return {"defs": dt["name"], "defs_fills": dfills, "table": table, "layers": layers, "stmts": stmts}, None
@@ -655,105 +743,152 @@ def check_render(ctx, res, case):
             elif name != "":
                 res.violation("an internal node without synteny carries a label", case, observed=name)
 
-    # ---- tie: cut the text along the generated templates and let the model re-assemble it
-    parsed, why = parse_text(text, params)
-    if parsed is None:
-        res.tie_broken("generated templates vs rendered text", case, why, text[-300:])
-        return
-    calls, why = call_order(rec, lay, parsed)
-    if calls is None:
-        res.tie_broken("statement census", case, why, None)
-        return
-    table_list = parsed["table"]
-    reqs, ev_colors = [], []
-    lean_calls = []
-    for c in calls:
-        t = parsed["stmts"][c["t"]]
-        kinds = hole_kinds(t)
-        fills = []
-        for kind, f in zip(kinds, c["fills"]):
-            if kind == "color":
-                html = table.get(f)
-                fills.append({"c": html if html is not None else "?"})
-                if c["owner"] is not None:
+    # The statements of a layer may be emitted in any order (and the colours interned in any order): when the
+    # positional attribution below finds something, and the text consists of exactly the statements of the model's
+    # text for this very layout (per layer, colours resolved, coordinates by value), the attribution is redone on the
+    # model's ordering of the same statements.
+    def tie(text, res, table):
+        # ---- tie: cut the text along the generated templates and let the model re-assemble it
+        parsed, why = parse_text(text, params)
+        if parsed is None:
+            res.tie_broken("generated templates vs rendered text", case, why, text[-300:])
+            return
+        calls, why = call_order(rec, lay, parsed)
+        if calls is None:
+            res.tie_broken("statement census", case, why, None)
+            return
+        table_list = parsed["table"]
+        reqs, ev_colors = [], []
+        lean_calls = []
+        for c in calls:
+            t = parsed["stmts"][c["t"]]
+            kinds = hole_kinds(t)
+            fills = []
+            for kind, f in zip(kinds, c["fills"]):
+                if kind == "color":
+                    html = table.get(f)
+                    fills.append({"c": html if html is not None else "?"})
+                    if c["owner"] is not None:
+                        gene, br = c["owner"]
+                        if html != br.color:
+                            res.violation("a statement is not drawn in its branch's colour", case,
+                                          expected=br.color, observed={"line": c["line"], "html": html})
+                        if c["layer"] == "events":
+                            ev_colors.append(html if html is not None else "undefined:" + f)
+                else:
+                    fills.append(f)
+                if kind == "label" and c["owner"] is not None and c["layer"] == "events":
                     gene, br = c["owner"]
-                    if html != br.color:
-                        res.violation("a statement is not drawn in its branch's colour", case,
-                                      expected=br.color, observed={"line": c["line"], "html": html})
-                    if c["layer"] == "events":
-                        ev_colors.append(html if html is not None else "undefined:" + f)
-            else:
-                fills.append(f)
-            if kind == "label" and c["owner"] is not None and c["layer"] == "events":
-                gene, br = c["owner"]
-                want = br.name or ("\\phantom{-}" if br.kind == NodeEvent.HORIZONTAL_TRANSFER else "")
-                if f != want:
-                    res.violation("the label in the text is not the branch's label", case, expected=want,
-                                  observed=c["line"])
-        lean_calls.append({"t": c["t"], "fills": fills})
-        reqs.append({"op": "c15_instantiate", "tmpl": t["name"], "fills": c["fills"]})
-    if sorted(ev_colors) != sorted(expected_event_colors):
-        res.violation("the colours of the event nodes are not those expected from the annotations", case,
-                      expected=sorted(expected_event_colors), observed=sorted(ev_colors))
-    # species labels
-    for c in calls:
-        t = parsed["stmts"][c["t"]]
-        for kind, f in zip(hole_kinds(t), c["fills"]):
-            if kind == "label" and c["owner"] is None:
-                back = unescape_spec(f.replace("\\\\\n", ""))
-                if back is None or back not in case["snames"].values():
-                    res.violation("a species label is not an escaped species name", case, observed=f)
-    reqs.append({"op": "c15_render", "defs": parsed["defs"], "defs_fills": parsed["defs_fills"],
-                 "calls": lean_calls})
-    # model side of colours and labels
-    def ctree(path):
-        node = oback[path]
-        d = {"c": colors.get(path)}
-        if node.children:
-            d["ch"] = [ctree(path + str(i)) for i in range(len(node.children))]
-        return d
+                    want = br.name or ("\\phantom{-}" if br.kind == NodeEvent.HORIZONTAL_TRANSFER else "")
+                    if f != want:
+                        res.violation("the label in the text is not the branch's label", case, expected=want,
+                                      observed=c["line"])
+            lean_calls.append({"t": c["t"], "fills": fills})
+            reqs.append({"op": "c15_instantiate", "tmpl": t["name"], "fills": c["fills"]})
+        if sorted(ev_colors) != sorted(expected_event_colors):
+            res.violation("the colours of the event nodes are not those expected from the annotations", case,
+                          expected=sorted(expected_event_colors), observed=sorted(ev_colors))
+        # species labels
+        for c in calls:
+            t = parsed["stmts"][c["t"]]
+            for kind, f in zip(hole_kinds(t), c["fills"]):
+                if kind == "label" and c["owner"] is None:
+                    back = unescape_spec(f.replace("\\\\\n", ""))
+                    if back is None or back not in case["snames"].values():
+                        res.violation("a species label is not an escaped species name", case, observed=f)
+        reqs.append({"op": "c15_render", "defs": parsed["defs"], "defs_fills": parsed["defs_fills"],
+                     "calls": lean_calls})
+        # model side of colours and labels
+        def ctree(path):
+            node = oback[path]
+            d = {"c": colors.get(path)}
+            if node.children:
+                d["ch"] = [ctree(path + str(i)) for i in range(len(node.children))]
+            return d
 
-    reqs.append({"op": "c15_colors", "tree": ctree("")})
-    label_nodes = []
-    for sp, sl in lay.items():
-        for gene, br in sl.branches.items():
-            if isinstance(gene, PseudoGene):
-                continue
-            f, p = syn.get(gene), syn.get(gene.up)
-            if isinstance(f, (set, frozenset)) or isinstance(p, (set, frozenset)):
-                continue
-            label_nodes.append((gene, br))
-            reqs.append({"op": "c15_label", "leaf": gene.is_leaf(), "width": width,
-                         "syn": None if f is None else list(f), "parent": None if p is None else list(p),
-                         "name": gene.name})
-    outs = ctx.driver.batch(reqs)
-    n = len(calls)
-    for c, o in zip(calls, outs[:n]):
-        if o["text"] != c["line"]:
-            res.tie_broken("template instantiation", case, o["text"], c["line"])
-        if not o["fills_ok"]:
-            res.tie_broken("a real hole filling lies outside the model's filling space", case, c["fills"], c["line"])
-    if outs[n] != text:
-        res.tie_broken("model render vs tikz.render", case, _first_diff(outs[n], text), None)
-    pre = []
+        reqs.append({"op": "c15_colors", "tree": ctree("")})
+        label_nodes = []
+        for sp, sl in lay.items():
+            for gene, br in sl.branches.items():
+                if isinstance(gene, PseudoGene):
+                    continue
+                f, p = syn.get(gene), syn.get(gene.up)
+                if isinstance(f, (set, frozenset)) or isinstance(p, (set, frozenset)):
+                    continue
+                label_nodes.append((gene, br))
+                reqs.append({"op": "c15_label", "leaf": gene.is_leaf(), "width": width,
+                             "syn": None if f is None else list(f), "parent": None if p is None else list(p),
+                             "name": gene.name})
+        outs = ctx.driver.batch(reqs)
+        n = len(calls)
+        for c, o in zip(calls, outs[:n]):
+            if o["text"] != c["line"]:
+                res.tie_broken("template instantiation", case, o["text"], c["line"])
+            if not o["fills_ok"]:
+                res.tie_broken("a real hole filling lies outside the model's filling space", case, c["fills"], c["line"])
+        if outs[n] != text:
+            res.tie_broken("model render vs tikz.render", case, _first_diff(outs[n], text), None)
+        pre = []
 
-    def walk(path):
-        pre.append(path)
-        for i in range(len(oback[path].children)):
-            walk(path + str(i))
+        def walk(path):
+            pre.append(path)
+            for i in range(len(oback[path].children)):
+                walk(path + str(i))
 
-    walk("")
-    br_of = {}
-    for sp, sl in lay.items():
-        for gene, br in sl.branches.items():
-            if not isinstance(gene, PseudoGene):
-                br_of[ofwd[gene]] = br
-    impl_cols = [br_of[p].color for p in pre]
-    if outs[n + 1] != impl_cols:
-        res.tie_broken("colour propagation", case, outs[n + 1], impl_cols)
-    for (gene, br), o in zip(label_nodes, outs[n + 2 :]):
-        if o != br.name:
-            res.tie_broken("node label", case, o, br.name)
+        walk("")
+        br_of = {}
+        for sp, sl in lay.items():
+            for gene, br in sl.branches.items():
+                if not isinstance(gene, PseudoGene):
+                    br_of[ofwd[gene]] = br
+        impl_cols = [br_of[p].color for p in pre]
+        if outs[n + 1] != impl_cols:
+            res.tie_broken("colour propagation", case, outs[n + 1], impl_cols)
+        for (gene, br), o in zip(label_nodes, outs[n + 2 :]):
+            if o != br.name:
+                res.tie_broken("node label", case, o, br.name)
+
+    first = _Deferred()
+    tie(text, first, table)
+    if first.items:
+        alt = same_statements_text(ctx, case, rec, lay, params, text)
+        if alt is not None:
+            res.dist["render:same statements per layer in another order"] += 1
+            first = _Deferred()
+            ahead = alt.split("\\begin{tikzpicture}")[0]
+            tie(alt, first, dict(re.findall(r"\\definecolor\{(" + prefix + r"[0-9]+)\}\{HTML\}\{([0-9A-Za-z]*)\}", ahead)))
+    first.flush(res)
+
+
+class _Deferred:
+    """Collects what a pass of the tie would report."""
+
+    def __init__(self):
+        self.items = []
+
+    def violation(self, *a, **kw):
+        self.items.append(("violation", a, kw))
+
+    def tie_broken(self, *a, **kw):
+        self.items.append(("tie_broken", a, kw))
+
+    def flush(self, res):
+        for kind, a, kw in self.items:
+            getattr(res, kind)(*a, **kw)
+
+
+def same_statements_text(ctx, case, rec, lay, params, text):
+    """The model's text for this layout when the real text consists of the same statements, else None."""
+    from harness.checks import c15_draw
+
+    try:
+        m = ctx.driver.batch([c15_draw.request(case["case"]["S"], rec, lay, params)])[0]
+    except Exception:  # noqa
+        return None
+    if "ok" not in m:
+        return None
+    a, b = canon_layers(m["ok"]["text"]), canon_layers(text)
+    return m["ok"]["text"] if a is not None and a == b else None
 
 
 def _first_diff(a, b):
